@@ -149,7 +149,7 @@ def oracle_child(sc, requests, alt_every=5):
     for n, (sid, path) in enumerate(requests):
         d, s, _k, x = reference(sc, texts, sid, path)
         out["%s|%s" % (sid, pkey(path))] = [d, s, x]
-        if len(requests) <= 4:
+        if alt_every and len(requests) <= 4:
             shifts = (1, 2, 3)  # replay of a minimised history: try every other form
         elif alt_every and n % alt_every == 0:
             shifts = (1 + (n // alt_every) % 3,)
@@ -390,12 +390,49 @@ def run_stats(sc, hist, violations):
 # ------------------------------------------------------------------ the run
 
 
+def purity(sc, reqs, orc, violations):
+    """I7: the reference itself must not depend on what was evaluated before it.
+
+    Child O evaluates many references one after the other in one process. Each mismatch
+    found against O, and one sampled reference per run, is evaluated again alone in its own
+    forked child; if that differs from what O reported, results depend on state that outlives
+    the objects (module/class-level caches, id()-keyed registries, ...).
+    """
+    if not reqs:
+        return []
+    todo, seen = [], set()
+    for v in violations[:3]:
+        if v["invariant"] in ("I3", "I4") and v["sid"] is not None:
+            todo.append((v["sid"], v["path"]))
+    todo.append(reqs[-1])
+    todo.append(reqs[(sc.get("run_seed") or 0) % len(reqs)])
+    out = []
+    for sid, path in todo:
+        key = "%s|%s" % (sid, pkey(path))
+        if key in seen:
+            continue
+        seen.add(key)
+        alone = fork_call(lambda: oracle_child(sc, [(sid, path)], alt_every=0))["ref"][key]
+        batch = orc["ref"][key]
+        if alone[0] != batch[0]:
+            out.append({
+                "invariant": "I7", "step": -2, "sid": sid, "path": path,
+                "observed": batch, "expected": alone,
+                "kind": mismatch_kind(batch[2], alone[2]), "family": path_family(path), "op": "REFERENCE-IN-BATCH",
+            })
+    return out
+
+
 def execute(sc, surface, ops=None, want_trace=False, max_viol=5):
     """Run scenario `sc` (scheduled, or replaying `ops`) and judge it."""
     hist = fork_call(lambda: history_child(sc, surface, ops))
     reqs = requests_of(hist)
     orc = fork_call(lambda: oracle_child(sc, reqs))
     violations = compare(sc, hist, orc)
+    impure = purity(sc, reqs, orc, violations)
+    if impure:
+        # a contaminated reference makes I3 verdicts against it meaningless: report I7 first
+        violations = impure + violations
     ld, od = log_digest(hist, orc)
     res = {
         "run_seed": sc["run_seed"],
